@@ -15,13 +15,13 @@ RULE = ("ordered pairs of pure names (all-sharp or all-flat spellings) whose asc
 
 def shards(tier, seed):
     out = []
-    ka = 2 if tier == "quick" else 5
+    ka = 3 if tier == "quick" else 5
     for L in T.LETTERS:
         out.append({"name": "naming-" + L, "kind": "naming", "letter": L, "k": ka, "weight": 5, "after_history": L in "CG"})
     for L in T.LETTERS:
         out.append({"name": "shorthand-" + L, "kind": "shorthand", "letter": L, "after_history": L in "CA",
-                    "grids": [[2, 2], [3, 2]] if tier == "quick" else [[4, 4], [6, 2]], "weight": 6})
-    out.append({"name": "invert", "kind": "invert", "n": 300 if tier == "quick" else 5000, "weight": 1})
+                    "grids": [[3, 3]] if tier == "quick" else [[4, 4], [6, 2]], "weight": 6})
+    out.append({"name": "invert", "kind": "invert", "n": 1000 if tier == "quick" else 5000, "weight": 1})
     return out
 
 
